@@ -476,11 +476,17 @@ func hashPool(i int) interface{} {
 
 func init() {
 	extraCmds["gobhash"] = func(args []string) {
-		// args: comma separated pool indices, e.g. "0,2,2,1"
+		// args: pool indices; "," separates values of one GobRegister call, "|" separates calls, e.g. "0,2|2,1"
 		if len(args) > 0 && args[0] != "" {
-			for _, s := range strings.Split(args[0], ",") {
-				i, _ := strconv.Atoi(s)
-				cache.GobRegister(hashPool(i))
+			for _, call := range strings.Split(args[0], "|") {
+				var vals []interface{}
+
+				for _, s := range strings.Split(call, ",") {
+					i, _ := strconv.Atoi(s)
+					vals = append(vals, hashPool(i))
+				}
+
+				cache.GobRegister(vals...)
 			}
 		}
 
@@ -513,19 +519,31 @@ func c14Hash(cc c14Cell, env *Env) CellResult {
 
 	// the canonical sequences (sorted, no repetition) are evaluated in every shard so that each shard can
 	// compare its sequences with them
-	run := func(seq []int) (uint64, error) {
-		var parts []string
-		for _, t := range seq {
-			parts = append(parts, strconv.Itoa(t))
+	// grouping: bit i set = a new GobRegister call starts before element i+1 (0 = everything in one call)
+	runG := func(seq []int, grouping int) (uint64, error) {
+		var sb strings.Builder
+
+		for i, t := range seq {
+			if i > 0 {
+				if grouping>>uint(i-1)&1 == 1 {
+					sb.WriteByte('|')
+				} else {
+					sb.WriteByte(',')
+				}
+			}
+
+			sb.WriteString(strconv.Itoa(t))
 		}
 
-		out, err := exec.Command(self, "gobhash", strings.Join(parts, ",")).Output()
+		out, err := exec.Command(self, "gobhash", sb.String()).Output()
 		if err != nil {
 			return 0, err
 		}
 
 		return strconv.ParseUint(strings.TrimSpace(string(out)), 10, 64)
 	}
+
+	run := func(seq []int) (uint64, error) { return runG(seq, 1<<16-1) } // one value per call
 
 	setKey := func(seq []int) string {
 		m := map[int]bool{}
@@ -592,20 +610,28 @@ func c14Hash(cc c14Cell, env *Env) CellResult {
 			continue
 		}
 
-		h, err := run(seq)
-		if err != nil {
-			bad("subprocess", err.Error())
-			return res
-		}
-
-		res.Execs++
-		res.States++
-		res.Transitions += len(seq)
-
 		k := setKey(seq)
-		if h != bySet[k] && !seen[k] {
-			seen[k] = true
-			bad("order-or-multiplicity", fmt.Sprintf("registration sequence %v gives hash %d, the sorted duplicate-free registration of the same set {%s} gives %d", seq, h, k, bySet[k]))
+
+		var h uint64
+
+		// every way of splitting the sequence into variadic GobRegister calls
+		for g := 0; g < 1<<uint(len(seq)-1); g++ {
+			var err error
+
+			h, err = runG(seq, g)
+			if err != nil {
+				bad("subprocess", err.Error())
+				return res
+			}
+
+			res.Execs++
+			res.States++
+			res.Transitions += len(seq)
+
+			if h != bySet[k] && !seen[k] {
+				seen[k] = true
+				bad("order-multiplicity-or-grouping", fmt.Sprintf("registration sequence %v split into calls as pattern %b gives hash %d, the sorted duplicate-free one-type-per-call registration of the same set {%s} gives %d", seq, g, h, k, bySet[k]))
+			}
 		}
 
 		res.Outcomes["set{"+k+"}"]++
@@ -638,7 +664,7 @@ func init() {
 		Cells: c14Cells, Run: c14Run,
 		Rule: "(transfer) all 27 assignments of cache names {a,b,c} to exporter-only / importer-only / both x every entry set of <=2 entries over the C13 alphabet x backend pairing x request perturbation " +
 			"{none, types hash altered, types hash missing, name altered, name missing}, through an in-process RoundTripper that calls the Export handler (no sockets); " +
-			"(faults) the response body cut, and separately the body read failing, at EVERY byte offset; (hash) every registration sequence of length <=4 with repetitions over a pool of 4 types (340), each in a fresh process",
+			"(faults) the response body cut, and separately the body read failing, at EVERY byte offset; (hash) every registration sequence of length <=4 with repetitions over a pool of 4 types (340) x every way of splitting it into variadic GobRegister calls, each in a fresh process",
 		Assumptions: []string{
 			"net/http is used through Handler.ServeHTTP and a custom RoundTripper only; no scheduler is active",
 			"GobTypesHashReset is not part of the statement (fresh processes are) and is not used",
